@@ -33,7 +33,8 @@ def main():
         if place.startswith(d + '/'):
             pkg = {'runtime': 'deadpool-runtime', 'sync': 'deadpool-sync'}.get(d, 'deadpool-' + d)
     tname = os.path.splitext(os.path.basename(place))[0]
-    feats = '--features rt_tokio_1,serde' if pkg == 'deadpool' else ('--features sqlite' if pkg == 'deadpool-diesel' else '')
+    feats = {'deadpool': '--features rt_tokio_1,serde', 'deadpool-diesel': '--features sqlite', 'deadpool-redis': '--features serde,cluster,sentinel',
+             'deadpool-postgres': '--features serde', 'deadpool-sqlite': '--features serde'}.get(pkg, '')
     res = {'seed': sid, 'property': meta.get('property'), 'demo_place': place, 'package': pkg}
     if not skip:
         if not os.path.isdir(WT):
@@ -104,6 +105,14 @@ def main():
     os.makedirs(dst, exist_ok=True)
     for f in ('patch.diff', 'demo.rs'):
         shutil.copy(os.path.join(seed, f), os.path.join(dst, f))
+    prev = {}
+    if skip and os.path.exists(os.path.join(dst, 'meta.json')):
+        try:
+            prev = json.load(open(os.path.join(dst, 'meta.json'))).get('confirmation', {})
+        except Exception:
+            prev = {}
+    prev.update(res)
+    res = prev
     meta['confirmation'] = res
     meta['confirmed_at_repo_head'] = sh('git -C %s rev-parse --short HEAD' % REPO)[1].strip()
     json.dump(meta, open(os.path.join(dst, 'meta.json'), 'w'), indent=1)
